@@ -94,6 +94,25 @@ pub fn load(text: &str, supplied: &[Sig]) -> Loaded {
     }
 }
 
+/// which check of the binder refused the test (from the error's Debug text); "" if it was not a bind error
+pub fn load_class(msg: &str) -> &'static str {
+    if !msg.starts_with("bind_err") {
+        ""
+    } else if msg.contains("DuplicateSignal") {
+        "dup"
+    } else if msg.contains("SignalIsVirtual") {
+        "virtual"
+    } else if msg.contains("UnknownSignals") {
+        "unknown"
+    } else if msg.contains("NotAnInput") {
+        "notinput"
+    } else if msg.contains("NotAnOutput") || msg.contains("UnknownVariableOrSignal") {
+        "notoutput"
+    } else {
+        "other"
+    }
+}
+
 pub fn row_to_spec(row: &DataRow<'_>) -> J {
     json!({
         "k": "row",
@@ -168,7 +187,9 @@ pub fn iterate_pub<D: TestDriver<Error = DrvErr>>(
 ) {
     verif::set_seed_override(Some(cfg.rng_seed));
     let _ = verif::take_rng_log();
-    let res = guarded(|| tc.try_iter(drv));
+    // the deprecated alias is part of the public API: every fifth run enters through it
+    #[allow(deprecated)]
+    let res = if cfg.run % 5 == 4 { guarded(|| tc.run_iter(drv)) } else { guarded(|| tc.try_iter(drv)) };
     let (calls, answer) = {
         let mut l = log.borrow_mut();
         let calls: Vec<J> = l.calls.drain(..).map(|c| call_to_spec(&c)).collect();
@@ -263,7 +284,7 @@ pub fn trace_run(prep: &Prepared, cfg: &RunCfg, policy: Policy) -> Vec<J> {
         Loaded::Panic(p) => (None, "panic", json!(format!("panic: {p}"))),
     };
     let observed = tc.as_ref().map(observed_signals).unwrap_or_default();
-    out.push(json!({"ev":"begin","run":cfg.run,"prop":cfg.prop,"load":load_kind,"load_msg":load_res,
+    out.push(json!({"ev":"begin","run":cfg.run,"prop":cfg.prop,"load":load_kind,"load_class":load_class(load_res.as_str().unwrap_or("")),"load_msg":load_res,
         "test":test_to_spec(&prep.test, &prep.printed, &observed),"own_write":cfg.own_write,"cfg":cfg.cfg_note,
         "text":prep.printed.text,"rng_seed":cfg.rng_seed.to_string()}));
     if let Some(tc) = tc {
